@@ -282,6 +282,34 @@ func c02member(v, i, m, p, x int) string {
 
 const c02ok = `{"jsonrpc":"2.0","id":"okid","method":"i","params":{"t":"ok"}}`
 
+// c02whitespaced wraps a single record, a two-member batch, a one-member batch
+// and the empty batch in every string of at most two JSON whitespace characters
+// (before) and four trailers (after), and puts whitespace inside the brackets.
+func c02whitespaced() []string {
+	ws := []string{" ", "\t", "\n", "\r"}
+	pres := []string{""}
+	for _, a := range ws {
+		pres = append(pres, a)
+		for _, b := range ws {
+			pres = append(pres, a+b)
+		}
+	}
+	posts := []string{"", " ", "\r\n", "\t\r"}
+	other := `{"jsonrpc":"2.0","id":7,"method":"nosuch"}`
+	var out []string
+	for _, pre := range pres {
+		for _, post := range posts {
+			out = append(out,
+				pre+c02ok+post,
+				pre+"["+c02ok+","+other+"]"+post,
+				pre+"["+pre+c02ok+post+","+pre+other+post+"]"+post,
+				pre+"["+post+"]"+post,
+			)
+		}
+	}
+	return out
+}
+
 func c02containers(m string) []string {
 	return []string{m, "[" + m + "]", "[" + m + "," + c02ok + "]", "[" + c02ok + "," + m + "]"}
 }
@@ -348,6 +376,11 @@ func c02cases(e vt.Env, yield func(vt.Case) bool) {
 	for _, push := range []bool{false, true} {
 		buf = append(buf[:0], special...)
 		if !flush("P0", push) {
+			return
+		}
+		// W: JSON whitespace (space, tab, LF, CR) around and inside single and batch records
+		buf = append(buf[:0], c02whitespaced()...)
+		if !flush("W", push) {
 			return
 		}
 	}
